@@ -582,7 +582,65 @@ def check_interp_newlen(ctx, rule='R-NEWLEN'):
                               'coordinate the dimension gets the length of another axis (broadcast error, or a silent wrong length when only one level is requested)' % (norm(v), newv, ax)))
 
 
+def check_ncattr_tuple(ctx, rule='R-ATTRLISTKIND'):
+    """the list of attribute names is extended with `x._ncattrs += (k, )`: for a tuple that re-binds a new object on the one variable;
+    for a list `+=` extends the shared object in place, and every array derived from the variable (views, results of arithmetic copy
+    the attribute dictionary in __array_finalize__ / _update_from) lists the new name although it does not have the attribute."""
+    ctx.rule(rule, 'the attribute-name list that is extended with `+= (k, )` is always bound to a tuple, never to a list (in-place growth would be shared by derived arrays)')
+    n = 0
+    for rp in ('core/_variables.py', 'core/_files.py'):
+        m = ctx.src.mod(rp)
+        grown = set()
+        for q, fn in m.functions.items():
+            for st in iter_stmts(fn.body):
+                if isinstance(st, ast.AugAssign) and isinstance(st.op, ast.Add) and isinstance(st.target, ast.Attribute) and isinstance(st.value, ast.Tuple):
+                    grown.add(st.target.attr)
+        for q, fn in sorted(m.functions.items()):
+            for st in iter_stmts(fn.body):
+                if not isinstance(st, ast.Assign):
+                    continue
+                for t in st.targets:
+                    if isinstance(t, ast.Attribute) and t.attr in grown:
+                        n += 1
+                        v = st.value
+                        where = 'src/PseudoNetCDF/%s %s' % (rp, q)
+                        if isinstance(v, (ast.List, ast.ListComp)) or (isinstance(v, ast.Call) and dotted(v.func) == 'list'):
+                            ctx.violation(Finding(rule, rp, q, st, '%s is bound to a list here and extended elsewhere with `+= (k, )`: the list grows in place and is shared with every array '
+                                                  'derived from the variable, so an attribute set on a result is listed on its source, which does not have it' % norm(t)))
+                        else:
+                            ctx.ok(rule, '%s:%s' % (q, norm(st)[:40]), where, 'bound to %s' % norm(v)[:30])
+    ctx.floor('bindings of the attribute-name list', n, 3)
+
+
+def check_newonly(ctx, rule='R-NEWONLY'):
+    """insertDimension adds the dimensions that are new; a name that exists already keeps its dimension object (length, unlimited flag)"""
+    ctx.rule(rule, 'insertDimension creates a dimension only when the name is not in the result yet (an existing dimension keeps its flag and length)')
+    fn = ctx.src.mod('core/_files.py').func('PseudoNetCDFFile.insertDimension')
+    where = 'src/PseudoNetCDF/core/_files.py PseudoNetCDFFile.insertDimension'
+    cds = [c for c in walk_expr(fn) if isinstance(c, ast.Call) and isinstance(c.func, ast.Attribute) and c.func.attr == 'createDimension' and getattr(c, '_fn', fn) is fn]
+    if not cds:
+        ctx.undec(rule, 'createDimension', where, 'no createDimension call')
+    for c in cds:
+        obj = norm(c.func.value)
+        key = norm(c.args[0]) if c.args else None
+        guarded = False
+        child, p_ = c, getattr(c, '_parent', None)
+        while p_ is not None and p_ is not fn:
+            if isinstance(p_, ast.If) and any(child is b or any(child is x for x in ast.walk(b)) for b in p_.body):
+                t = norm(p_.test)
+                if t in ('%s not in %s.dimensions' % (key, obj), '%s not in %s.dimensions.keys()' % (key, obj), 'not %s in %s.dimensions' % (key, obj)):
+                    guarded = True
+            child, p_ = p_, getattr(p_, '_parent', None)
+        if guarded:
+            ctx.ok(rule, norm(c)[:40], where, 'under `%s not in %s.dimensions`' % (key, obj))
+        else:
+            ctx.violation(Finding(rule, 'core/_files.py', 'PseudoNetCDFFile.insertDimension', api.stmt_of(c), '%s is created whether or not the result has it already: inserting next to an existing '
+                                  'dimension replaces that dimension (an unlimited `time` loses its flag, another length raises)' % key))
+
+
 def run(ctx):
+    check_ncattr_tuple(ctx)
+    check_newonly(ctx)
     ctx.rule('R-UNLIM', 'createDimension of a surviving key is paired with a setunlimited derived from the source dimension')
     ctx.rule('R-NCATTR', 'attribute-name list written only by life-cycle methods, in step with the attribute store')
     nsites, nobl = check_unlim(ctx)
